@@ -510,7 +510,7 @@ func (nativeBigFloat) isNativeHandle() {}
 func init() {
 	externals["math.IsNaN"] = func(fr *frame, a []value) value {
 		if s, ok := a[0].(symVal); ok {
-			return fr.i.boolSym(fr.i.ctx().App("fp.isNaN", sym.Bool, s.t))
+			return fr.i.boolSym(fr.i.ctx().IsNaN(s.t))
 		}
 		return math.IsNaN(a[0].(float64))
 	}
@@ -519,6 +519,14 @@ func init() {
 		if s, ok := a[0].(symVal); ok {
 			c := i.ctx()
 			sign := i.concretize(a[1])
+			if s.t.FromIntConv() {
+				return false
+			}
+			if r, ok := c.LiftUnary(s.t, func(l *sym.Term) *sym.Term {
+				return c.BoolLit(math.IsInf(math.Float64frombits(l.CBits), int(sign)))
+			}); ok {
+				return i.boolSym(r)
+			}
 			inf := c.App("fp.isInfinite", sym.Bool, s.t)
 			switch {
 			case sign > 0:
@@ -609,8 +617,18 @@ func init() {
 			}
 			return f == math.Trunc(f)
 		case symVal:
+			c := i.ctx()
+			if f.t.FromIntConv() {
+				return true // a float converted from an integer is integral
+			}
+			if r, ok := c.LiftUnary(f.t, func(l *sym.Term) *sym.Term {
+				x := math.Float64frombits(l.CBits)
+				return c.BoolLit(!math.IsInf(x, 0) && x == math.Trunc(x))
+			}); ok {
+				return i.boolSym(r)
+			}
 			i.w.usedUF = true
-			return i.boolSym(i.ctx().App("f.isint", sym.Bool, f.t))
+			return i.boolSym(c.App("f.isint", sym.Bool, f.t))
 		}
 		panic("IsInt")
 	}
